@@ -6,7 +6,7 @@
 #include <stdint.h>
 #include <inttypes.h>
 #include <time.h>
-extern const struct dispatch_data_format_type_s _dispatch_data_format_type_none, _dispatch_data_format_type_base64, _dispatch_data_format_type_base32;
+extern const struct dispatch_data_format_type_s _dispatch_data_format_type_none, _dispatch_data_format_type_base64, _dispatch_data_format_type_base32, _dispatch_data_format_type_utf8, _dispatch_data_format_type_utf16le, _dispatch_data_format_type_utf16be;
 dispatch_data_t dispatch_data_create_with_transform(dispatch_data_t, const struct dispatch_data_format_type_s*, const struct dispatch_data_format_type_s*);
 dispatch_queue_attr_t dispatch_queue_attr_make_with_overcommit(dispatch_queue_attr_t, bool);
 
@@ -64,6 +64,27 @@ int main(void){
       dispatch_data_apply(a,^bool(dispatch_data_t rg, size_t off, const void *p, size_t n){ (void)rg;(void)p; printf("%s%zu:%zu",first?"":",",off,n); first=0; return true; });
       printf(" bytes="); print_data_hex(a); puts("");
     }
+    else if(!strcmp(tok,"U16")){   /* U16 <hex>|<hex>|... : one region per part, UTF-8 -> UTF-16LE */
+      char *spec=strtok(NULL," \n"); dispatch_data_t d=dispatch_data_empty; char *save=NULL;
+      for(char *part=strtok_r(spec,"|",&save); part; part=strtok_r(NULL,"|",&save)){
+        unsigned char buf[1<<12]; size_t n=parsehex(part,buf); if(!n) continue;
+        dispatch_data_t leaf=dispatch_data_create(buf,n,NULL,DISPATCH_DATA_DESTRUCTOR_DEFAULT);
+        dispatch_data_t c=dispatch_data_create_concat(d,leaf); dispatch_release(leaf); dispatch_release(d); d=c; }
+      if(dispatch_data_get_size(d)==0){ puts("-"); continue; }
+      dispatch_data_t r=dispatch_data_create_with_transform(d,&_dispatch_data_format_type_utf8,&_dispatch_data_format_type_utf16le);
+      if(!r){ puts("NULL"); } else { print_data_hex(r); puts(""); dispatch_release(r); }
+      dispatch_release(d); }
+    else if(!strcmp(tok,"U8L")||!strcmp(tok,"U8B")){   /* UTF-16LE/BE -> UTF-8, one region per part */
+      int be = tok[2]=='B';
+      char *spec=strtok(NULL," \n"); dispatch_data_t d=dispatch_data_empty; char *save=NULL;
+      for(char *part=strtok_r(spec,"|",&save); part; part=strtok_r(NULL,"|",&save)){
+        unsigned char buf[1<<12]; size_t n=parsehex(part,buf); if(!n) continue;
+        dispatch_data_t leaf=dispatch_data_create(buf,n,NULL,DISPATCH_DATA_DESTRUCTOR_DEFAULT);
+        dispatch_data_t c=dispatch_data_create_concat(d,leaf); dispatch_release(leaf); dispatch_release(d); d=c; }
+      if(dispatch_data_get_size(d)==0){ puts("-"); continue; }
+      dispatch_data_t r=dispatch_data_create_with_transform(d, be? &_dispatch_data_format_type_utf16be : &_dispatch_data_format_type_utf16le, &_dispatch_data_format_type_utf8);
+      if(!r){ puts("NULL"); } else { print_data_hex(r); puts(""); dispatch_release(r); }
+      dispatch_release(d); }
     else puts("bad-op");
   }
   return 0;
